@@ -20,12 +20,16 @@ package main
 //   PrepMeta / FlushMeta / CompactMeta   tag value dictionary (database level): MetaDB().PrepareFlush / Flush, Family.Compact
 //   PrepIdx / FlushIdx / CompactIdx      inverted / forward / metric index (shard level): IndexDB().PrepareFlush / Flush, Family.Compact
 //   Reopen  engine closed (flushes everything) and opened again;  Refresh  every series re-written into the next slot
+//   Dict    k, entries [[value index, tag value id]...]: the tag value dictionary of key k of the judged metric as the metadata
+//           database lists it (FindTagValueIDsForTag + CollectTagValues); logged before every dictionary compaction and at the
+//           stops of the window universes (a value has ONE id)
 //   Query   m, cond (AST of the GENERATED condition), g (group-by keys), slot, res ok|error, sql,
 //           groups [[value index per group key], count]  (count = sum of the field: every series writes 1 once per era)
 // Strings are interned: a returned tag value is logged as its index in the value table of its key
 // (a string nobody wrote gets a negative index).
 //
-// Universes: small (random histories), tour (every placement of the property text, whatever the seed), big (thousands
+// Universes: small (random histories), tour (every placement of the property text, whatever the seed), window (questions
+// and writes INSIDE the commit of a dictionary / index flush, then about exactly the entries that flush persisted), big (thousands
 // of series, a unique key, ids across the 65536 boundary), enum (EVERY set of one / two series of the universe leg M
 // explores x every atom), and -- in a second file -- the universes that exercise recorded findings.
 // --script re-executes a recorded history (strings reconstructed from a sub-trace) and prints the real answers.
@@ -45,6 +49,7 @@ import (
 	"sync"
 	"time"
 
+	commonconstants "github.com/lindb/common/constants"
 	commonmodels "github.com/lindb/common/models"
 	protoMetricsV1 "github.com/lindb/common/proto/gen/v1/linmetrics"
 	"google.golang.org/grpc"
@@ -586,6 +591,69 @@ func (r *tixRun) write(batch []tixSeries, strs [][]string) bool {
 	return true
 }
 
+// dictDump logs the tag value dictionary of every live key of the judged metric (Dict events).  Returns false when the
+// driver itself saw one string under two ids: the history is then not continued into a dictionary compaction (the
+// merger builds a trie of the merged keys on a BACKGROUND goroutine and panics on a repeated key: the process, and the
+// recorded trace with it, would be lost).  The verdict is the specification's: it rejects the Dict event.
+func (r *tixRun) dictDump() bool {
+	u := r.u
+	if u.nsid[0] == 0 || r.db == nil {
+		return true
+	}
+	meta := r.db.MetaDB()
+	mid, err := meta.GetMetricID(commonconstants.DefaultNamespace, u.metrics[0])
+	if err != nil {
+		r.unresolved("dictionary dump: metric id: %v", err)
+		return false
+	}
+	schema, err := meta.GetSchema(mid)
+	if err != nil || schema == nil {
+		r.unresolved("dictionary dump: schema: %v", err)
+		return false
+	}
+	function := true
+	for _, k := range u.liveKeys() {
+		tk, ok := schema.TagKeys.Find(u.keys[k-1])
+		if !ok {
+			r.unresolved("dictionary dump: tag key %s is not in the schema", u.keys[k-1])
+			return false
+		}
+		ids, err := meta.FindTagValueIDsForTag(tk.ID)
+		if err != nil {
+			r.unresolved("dictionary dump: value ids of %s: %v", u.keys[k-1], err)
+			return false
+		}
+		list := ids.ToArray()
+		strs := map[uint32]string{}
+		if err := meta.CollectTagValues(tk.ID, ids.Clone(), strs); err != nil {
+			r.unresolved("dictionary dump: values of %s: %v", u.keys[k-1], err)
+			return false
+		}
+		entries := [][]int{}
+		seen := map[string]bool{}
+		for _, id := range list {
+			v, has := strs[id]
+			switch {
+			case !has:
+				entries = append(entries, []int{-1, int(id)}) // an id without a string
+			case u.vidx[k-1][v] > 0:
+				entries = append(entries, []int{u.vidx[k-1][v], int(id)})
+			default:
+				entries = append(entries, []int{-2, int(id)}) // a string nobody wrote under this key
+			}
+			if has && seen[v] {
+				function = false
+			}
+			seen[v] = true
+		}
+		r.emit("Dict", trace.F{"k": k, "entries": entries})
+	}
+	if !function {
+		r.qstats["dictionary-with-a-repeated-value"]++
+	}
+	return function
+}
+
 func (r *tixRun) step(op string) bool {
 	switch op {
 	case "PrepMeta":
@@ -606,6 +674,9 @@ func (r *tixRun) step(op string) bool {
 		kind := "meta"
 		if op == "CompactIdx" {
 			kind = "index"
+		} else if !r.dictDump() {
+			r.ok = false // (not unresolved: the Dict event just logged is what the specification judges)
+			return false
 		}
 		files := r.compact(kind)
 		if len(files) > 0 {
@@ -691,7 +762,15 @@ func (r *tixRun) query(m int, c *tixCond, g []int, class string) {
 		r.unresolved("generated SQL is not a query: %s", q)
 		return
 	}
-	rs, err := query.MetricDataSearch(context.Background(), &models.ExecuteParam{Database: r.dbName, SQL: q}, qs, r.mgr)
+	var rs any
+	func() {
+		defer func() { // a panic of the code under test on the asking goroutine is an answer ("error"), judged like one
+			if x := recover(); x != nil {
+				rs, err = nil, fmt.Errorf("panic: %v", x)
+			}
+		}()
+		rs, err = query.MetricDataSearch(context.Background(), &models.ExecuteParam{Database: r.dbName, SQL: q}, qs, r.mgr)
+	}()
 	groups := [][]any{}
 	switch {
 	case err != nil:
@@ -1334,6 +1413,315 @@ func (w *tixWindowSeam) fire(fileName string) {
 	fn(filepath.Dir(famDir), filepath.Base(famDir))
 }
 
+// flushInWindow runs the flush step `op` with the window armed: fn runs on the flushing goroutine each time the flush
+// finished the table file of one family of this universe and is about to commit it.  Returns the families whose
+// commit window was entered.
+func (r *tixRun) flushInWindow(op string, fn func(family string)) ([]string, bool) {
+	tixInstallWindowSeam()
+	var fired []string
+	tixWin.mu.Lock()
+	tixWin.root = r.dir
+	tixWin.fn = func(store, family string) {
+		defer func() {
+			if x := recover(); x != nil {
+				r.unresolved("panic inside the commit window of %s: %v", family, x)
+			}
+		}()
+		fired = append(fired, family)
+		r.qstats["window-entered:"+op+":"+family]++
+		fn(family)
+	}
+	tixWin.mu.Unlock()
+	ok := r.step(op)
+	tixWin.mu.Lock()
+	tixWin.fn = nil
+	tixWin.mu.Unlock()
+	return fired, ok
+}
+
+func tixHas(xs []string, x string) bool {
+	for _, y := range xs {
+		if y == x {
+			return true
+		}
+	}
+	return false
+}
+
+// window: one universe whose dictionary / index flushes are entered.  Generations of tag values of the SAME tag keys:
+// A (persisted by a plain flush), B (persisted by a flush whose commit window is entered), C (created inside a window).
+// Inside the window of the flush of B the driver resolves values of the same keys that are NOT in memory (A: persisted
+// earlier; absent ones) through every lookup path -- equals / in (dictionary get), like / regex (dictionary scan),
+// group by (reverse lookup), and the write path (get-or-create of a persisted value, creation of a new one).  After
+// the flush every value the flush persisted is asked for through every atom kind, then new series with those values
+// are written and asked for again (a value that were given a second id would split its posting lists: equals and
+// like / regex, or group by, then disagree with the reference), then the same once more around the next flush,
+// a compaction and a reopen.
+func (r *tixRun) window(variant, qn int) {
+	rng := r.rng
+	nkeys := 1 + rng.Intn(2)
+	u := &tixUniverse{metrics: []string{"cpu", "mem"}, have: map[string]bool{}, otherOneIn: 6}
+	perm := rng.Perm(len(tixKeyNames))
+	for i := 0; i < nkeys; i++ {
+		u.keys = append(u.keys, tixKeyNames[perm[i]])
+	}
+	u.keys = append(u.keys, "uid") // every series is new, whatever its other tags: a value can be re-used at will
+	u.uniq = len(u.keys)
+	gens := make([][3][]string, nkeys) // per key: value generations A, B, C (disjoint)
+	for k := 0; k < nkeys; k++ {
+		alpha := tixAlphabets[rng.Intn(len(tixAlphabets))]
+		var pool []string
+		seen := map[string]bool{}
+		for len(pool) < 7 {
+			v := tixRandValue(rng, alpha, pool)
+			if len(pool) >= 12 { // (a tiny alphabet may run out of short strings)
+				v += fmt.Sprint(len(pool))
+			}
+			if v == "" || seen[v] || strings.Contains(v, "'") {
+				continue
+			}
+			seen[v] = true
+			pool = append(pool, v)
+		}
+		gens[k] = [3][]string{pool[0:2], pool[2:5], pool[5:7]}
+		u.pool = append(u.pool, pool)
+		u.vals = append(u.vals, nil)
+		u.vidx = append(u.vidx, map[string]int{})
+	}
+	u.pool = append(u.pool, []string{"u1", "u2", "u3"}) // (literals for generated conditions; the values are u<n>)
+	u.vals = append(u.vals, nil)
+	u.vidx = append(u.vidx, map[string]int{})
+	if !r.begin("window", u) {
+		return
+	}
+	defer r.end()
+	full := u.pool
+
+	// batch: n new series whose values are drawn from the given generations; the first series belongs to the judged
+	// metric and carries, under every key, the first value of the LAST given generation (so that generation is used)
+	batch := func(n, missP int, g ...int) bool {
+		pools := make([][]string, len(u.keys))
+		pools[u.uniq-1] = full[u.uniq-1]
+		for k := 0; k < nkeys; k++ {
+			for _, x := range g {
+				pools[k] = append(pools[k], gens[k][x]...)
+			}
+		}
+		u.pool = pools
+		defer func() { u.pool = full }()
+		var b []tixSeries
+		var strs [][]string
+		first := make([]string, len(u.keys))
+		for k := 0; k < nkeys; k++ {
+			first[k] = gens[k][g[len(g)-1]][0]
+		}
+		u.nextU++
+		first[u.uniq-1] = fmt.Sprintf("u%d", u.nextU)
+		u.have[fmt.Sprint(1, "\x00", strings.Join(first, "\x00"))] = true
+		b = append(b, tixSeries{m: 1, tags: make([]int, len(u.keys))})
+		strs = append(strs, first)
+		for i := 1; i < n; i++ {
+			sr, st, ok := u.newSeries(rng, missP)
+			if !ok {
+				break
+			}
+			b = append(b, sr)
+			strs = append(strs, st)
+		}
+		return r.write(b, strs)
+	}
+	atom := func(k int, kind, shape string, neg bool, lits ...string) *tixCond {
+		c := &tixCond{Op: "atom", K: k, Kind: kind, Shape: shape, Neg: neg, Alt: rng.Intn(6)}
+		for _, l := range lits {
+			c.Lits = append(c.Lits, []byte(l))
+		}
+		switch kind {
+		case "like":
+			c.Pat = map[string]string{"prefix": lits[0] + "*", "suffix": "*" + lits[0], "contains": "*" + lits[0] + "*", "exact": lits[0]}[shape]
+		case "regex":
+			c.Anch = true
+			c.Pat = renderRegex(shape, c.Lits, true)
+			if rp, err := regexp.Compile(c.Pat); err == nil {
+				lp, _ := rp.LiteralPrefix()
+				c.LP = []byte(lp)
+			} else {
+				r.unresolved("generated regexp does not compile: %s", c.Pat)
+			}
+		}
+		return c
+	}
+	likeSafe := func(v string) bool { return !strings.HasPrefix(v, "*") && !strings.HasSuffix(v, "*") }
+	grp := func(k int) []int {
+		switch rng.Intn(4) {
+		case 0:
+			return []int{k}
+		case 1:
+			return []int{u.uniq, k}
+		case 2:
+			return []int{u.uniq}
+		}
+		return nil
+	}
+	absent := func(k int) string { return gens[k-1][0][0] + "zq" } // (no alphabet has these letters)
+	// about(k, v, class): value v of key k through every atom kind
+	about := func(k int, v, class string) {
+		other := absent(k)
+		if len(u.vals[k-1]) > 0 {
+			other = u.vals[k-1][rng.Intn(len(u.vals[k-1]))]
+		}
+		r.query(1, atom(k, "eq", "", false, v), grp(k), class)
+		r.query(1, atom(k, "in", "", false, absent(k), v), grp(k), class)
+		if likeSafe(v) {
+			r.query(1, atom(k, "like", []string{"exact", "prefix"}[rng.Intn(2)], false, v), grp(k), class)
+		}
+		r.query(1, atom(k, "regex", "exact", false, v), grp(k), class)
+		switch rng.Intn(3) {
+		case 0:
+			r.query(1, atom(k, "eq", "", true, v), grp(k), class)
+		case 1:
+			r.query(1, atom(k, "in", "", true, v, other), grp(k), class)
+		default:
+			r.query(1, &tixCond{Op: "or", L: atom(k, "eq", "", false, v), R: atom(k, "eq", "", false, other)}, []int{k}, class)
+		}
+	}
+	// the values of generation x that were really written
+	written := func(k, x int) []string {
+		var out []string
+		for _, v := range gens[k-1][x] {
+			if u.vidx[k-1][v] > 0 {
+				out = append(out, v)
+			}
+		}
+		return out
+	}
+	probe := func(class string, g ...int) bool {
+		if !r.dictDump() {
+			r.ok = false // (see dictDump: such a history is not led into a dictionary compaction)
+			return false
+		}
+		for k := 1; k <= nkeys && r.ok; k++ {
+			for _, x := range g {
+				for _, v := range written(k, x) {
+					about(k, v, class)
+				}
+			}
+		}
+		r.query(1, &tixCond{Op: "true"}, []int{1 + rng.Intn(nkeys)}, class)
+		if r.ok {
+			r.queries(qn, 2)
+		}
+		return r.ok
+	}
+	// what runs inside a commit window: lookups of values that are not in memory (persisted earlier / absent), of values
+	// in the generation being flushed and in the mutable one; a write that re-uses persisted values and creates new ones
+	inside := func(old, flushing int, write bool, newGen ...int) func(string) {
+		return func(family string) {
+			class := "in-window"
+			for k := 1; k <= nkeys && r.ok; k++ {
+				vs := written(k, old)
+				if len(vs) > 0 {
+					r.query(1, atom(k, "eq", "", false, vs[rng.Intn(len(vs))]), grp(k), class)
+				}
+				r.query(1, atom(k, "eq", "", false, absent(k)), grp(k), class)
+				if fs := written(k, flushing); len(fs) > 0 {
+					v := fs[rng.Intn(len(fs))]
+					r.query(1, atom(k, "in", "", false, v, absent(k)), grp(k), class)
+					if likeSafe(v) {
+						r.query(1, atom(k, "like", "prefix", false, v), []int{k}, class)
+					}
+				}
+			}
+			if write && r.ok {
+				batch(2+rng.Intn(2), 10, newGen...)
+			}
+			if r.ok {
+				r.queries(qn, 2)
+			}
+		}
+	}
+	need := func(fired []string, fam, op string) bool {
+		if !tixHas(fired, fam) {
+			r.unresolved("window scenario: the commit window of family %s was not entered by %s (entered: %v)", fam, op, fired)
+			return false
+		}
+		return true
+	}
+
+	// ---- generation A: written, persisted by a plain flush cycle
+	if !batch(3+rng.Intn(3), 15, 0) {
+		return
+	}
+	if !(r.step("PrepMeta") && r.step("FlushMeta") && r.step("PrepIdx") && r.step("FlushIdx")) {
+		return
+	}
+	if !probe("window-a", 0) {
+		return
+	}
+	// ---- generation B beside the persisted A (some series re-use A values: get-or-create of persisted values)
+	if !batch(4+rng.Intn(3), 15, 0, 1) {
+		return
+	}
+	if variant%2 == 1 && !probe("window-b-mem", 1) {
+		return
+	}
+	if !r.step("PrepMeta") {
+		return
+	}
+	// ---- the flush of B, entered: the dictionary is asked for / given values of the same keys while it commits
+	fired, ok := r.flushInWindow("FlushMeta", inside(0, 1, variant%3 == 2, 0, 2))
+	if !ok || !need(fired, "tv", "FlushMeta") {
+		return
+	}
+	// ---- every value this flush persisted, through every atom kind
+	if !probe("window-after", 1, 0) {
+		return
+	}
+	// ---- new series that carry those values: each value must resolve to the id it has
+	if !batch(3+rng.Intn(3), 10, 0, 1) {
+		return
+	}
+	if !probe("window-reuse", 1) {
+		return
+	}
+	// ---- the same for the index flush (posting lists, forward index, series dictionary), entered as well
+	if !r.step("PrepIdx") {
+		return
+	}
+	fired, ok = r.flushInWindow("FlushIdx", inside(0, 1, variant%2 == 0, 1, 2))
+	if !ok || !need(fired, "inverted", "FlushIdx") || !need(fired, "forward", "FlushIdx") {
+		return
+	}
+	if !probe("window-after-idx", 1, 2) {
+		return
+	}
+	// ---- generation C: next dictionary flush entered with a write inside, then compaction and reopen
+	if !batch(3+rng.Intn(2), 10, 1, 2) || !r.step("PrepMeta") {
+		return
+	}
+	fired, ok = r.flushInWindow("FlushMeta", inside(1, 2, true, 0, 1, 2))
+	if !ok || !need(fired, "tv", "FlushMeta") {
+		return
+	}
+	if !probe("window-after", 2, 1) {
+		return
+	}
+	if !batch(3, 10, 2) {
+		return
+	}
+	if !probe("window-reuse", 2) {
+		return
+	}
+	if !(r.step("PrepMeta") && r.step("FlushMeta") && r.step("PrepIdx") && r.step("FlushIdx") && r.step("CompactMeta") && r.step("CompactIdx")) {
+		return
+	}
+	if !probe("window-compacted", 0, 1, 2) {
+		return
+	}
+	if variant%2 == 0 && r.step("Reopen") {
+		probe("window-reopened", 1, 2)
+	}
+}
+
 func tagidxMain(args []string) int {
 	fs := flag.NewFlagSet("tagidx", flag.ExitOnError)
 	seed := fs.Int64("seed", 1, "seed")
@@ -1348,6 +1736,7 @@ func tagidxMain(args []string) int {
 	bign := fs.Int("big-n", 3000, "series per big universe")
 	bigq := fs.Int("big-q", 3, "queries per batch of a big universe")
 	nfind := fs.Int("findings", 1, "universes per recorded finding")
+	nwin := fs.Int("window", 0, "universes whose flushes are entered (questions / writes inside the commit window of a flush)")
 	enumEvery := fs.Int("enum-every", 0, "exhaustive small universe: run every n-th series set (0 = none, 1 = all 256)")
 	enumD2 := fs.Int("enum-depth2", 30, "depth-2 conditions per enumerated universe")
 	enumTriples := fs.Int("enum-triples", 0, "additional random three-series sets")
@@ -1386,6 +1775,9 @@ func tagidxMain(args []string) int {
 	}
 	for i := 0; i < *nbig; i++ {
 		r.big(*bign, *bigq)
+	}
+	for i := 0; i < *nwin; i++ {
+		r.window(i+int(*seed), *qn)
 	}
 	if *enumEvery > 0 {
 		sum.Extra["enum_universes"] = r.enum(*enumEvery, int(*seed), *enumD2, *enumTriples)
